@@ -9,6 +9,8 @@ import speccheck
 import specrun
 import upword
 from comb_spec_searcher.exception import SpecificationNotFound, StrategyDoesNotApply
+from comb_spec_searcher.exception import InvalidOperationError
+from comb_spec_searcher.strategies.strategy import VerificationStrategy
 
 LEVEL_NOTE = (
     "series arithmetic (add, convolution product, powers, substitution of statistic variables by monomials = re-keying) is "
@@ -210,6 +212,58 @@ def form_eval(o, r, N):
                 o["exc"] = specrun.exc_info(exc)
 
 
+class ImplicitVer(VerificationStrategy):
+    """verifies a pattern-free word class and gives its generating function implicitly, through the placeholder `F` the library
+    documents for verification strategies: F = x^|prefix| + |alphabet| x F"""
+
+    def verified(self, c):
+        return isinstance(c, upword.PW) and not c.patterns and not c.params and not c.just_prefix
+
+    def formal_step(self):
+        return "implicit closed form"
+
+    def get_genf(self, c, funcs=None):
+        if not self.verified(c):
+            raise StrategyDoesNotApply("not verified")
+        return X ** len(c.prefix) + len(c.alphabet) * X * sympy.var("F")
+
+    def get_terms(self, c, n):
+        return upword.true_terms(c, n)
+
+    def pack(self, c):
+        raise InvalidOperationError("no pack")
+
+    @classmethod
+    def from_dict(cls, d):
+        return cls()
+
+
+def implicit_outputs(N):
+    """equations of verification rules whose strategy answers implicitly (placeholder F), asked for with every kind of function table"""
+    outs = []
+    for prefix, alpha in [("a", "ab"), ("ab", "ab"), ("ba", "abc"), ("c", "abc"), ("aab", "ab")]:
+        c = upword.PW(prefix, [], alpha)
+        rule = ImplicitVer()(c)
+        for tag in ("no table", "empty table", "table with the class"):
+            classes = []
+
+            def get_function(cc):
+                if cc not in classes:
+                    classes.append(cc)
+                return sympy.Function(f"F_{classes.index(cc)}")(X, *[sympy.var(k) for k in cc.extra_parameters])
+
+            o = {"rule": f"VerificationRule {c!r} via ImplicitVer", "form": "verification-implicit (" + tag + ")", "constructor": "verification"}
+            try:
+                f0 = get_function(c)
+                eq = rule.get_equation(get_function, None if tag == "no table" else ({} if tag == "empty table" else {c: f0}))
+                o["eq"] = str(eq)
+                o["lines"] = eq_lines(eq, classes, N, N + 5)
+            except Exception as exc:  # noqa: BLE001
+                o["exc"] = specrun.exc_info(exc)
+            outs.append(o)
+    return outs
+
+
 def spec_worker(args):
     import signal
 
@@ -315,6 +369,7 @@ def run(tier, seed, factor=1):
     N = common.scale(tier, 7, 8)
     jobs = [(seed * 967 + i, common.scale(tier, 5, 15), N) for i in range(common.scale(tier, 48, 160) * factor)]
     fouts = [o for part in specrun.pool_map(form_worker, jobs) for o in part]
+    fouts += implicit_outputs(N)
     rnd = random.Random(seed * 1000003 + 20)
     scfgs = speccheck.make_configs(rnd, common.scale(tier, 100, 800) * factor)
     grnd = random.Random(seed * 86028121 + 20)
